@@ -184,6 +184,10 @@ func TestCheck(t *testing.T) {
 			inner, spec = rec, rt.J{"kind": "scripted-recorder", "trajectory_head": traj[:8]}
 		default:
 			s := limgen.Gen(r, ik, limgen.Opts{NoProbe: true})
+			if (ik == "gradient" || ik == "gradient2") && s.Min > 2 && r.IntN(6) == 0 {
+				s.Initial = 1 + r.IntN(s.Min-1) // built below its own minimum (the constructors accept it): the estimate climbs from there
+				rt.Count("cases_built_below_the_minimum", 1)
+			}
 			inner, spec = s.New(nil, "c16"), s
 		}
 		top := inner
@@ -257,6 +261,9 @@ func TestCheck(t *testing.T) {
 				v := 1 + r.IntN(60)
 				if r.IntN(3) == 0 {
 					v = before // explicit set to the same value
+				} else if r.IntN(5) == 0 {
+					v = 0 // an explicit set may take the estimate to 0
+					rt.Count("explicit_sets_to_zero", 1)
 				}
 				settable.SetLimit(v)
 				desc = rt.J{"op": "SetLimit", "v": v}
